@@ -4,482 +4,45 @@ their checks, resolution of qubit / classical arguments, the measure / reset / b
 separators) are equal to the hand-written MODEL (`Qvnt.Interp`, `Model/Interp.lean`) the theorems of
 C10 / C11 / C13 / C17 / C18 are about. The translated functions work on the model's own record `Interp R`.
 -/
-import Qvnt.Lemmas.GenExtOp
-import Qvnt.Lemmas.GenBits
-
-set_option linter.unusedSectionVars false
-
-namespace Qvnt.Gen2
-open Qvnt Qvnt.Gen
-
-variable {R : Type}
-
-/-- a Rust `Result<'t, T>` as the model's three-valued result (a `Result` never carries a panic) -/
-def exToRes {α : Type} : Except IntError α → Res α
-  | .ok a => .ok a
-  | .error e => .err e
-
-theorem int_check_ident_eq (a : String) : int_check_ident a = Interp.checkIdent a := by
-  unfold int_check_ident Interp.checkIdent Generated.identLimit
-  by_cases h : a.utf8ByteSize ≥ 32 <;> simp [h]
-
-theorem int_check_reg_size_eq (a : String) (n : Nat) : int_check_reg_size a n = Interp.checkRegSize a n := by
-  unfold int_check_reg_size Interp.checkRegSize Generated.regSizeLimit
-  by_cases h : n ≥ 64 <;> simp [h]
-
-theorem int_check_dup_eq (s c : Interp R) (a : String) : int_check_dup s c a = Interp.checkDup s c a := by
-  unfold int_check_dup Interp.checkDup
-  simp only [gt_iff_lt]
-  by_cases h1 : 0 < (List.filter (fun x => x == a) s.qReg).length
-  · simp [h1]
-  · by_cases h2 : 0 < (List.filter (fun x => x == a) s.cReg).length
-    · simp [h1, h2]
-    · by_cases h3 : 0 < (List.filter (fun x => x == a) c.qReg).length
-      · simp [h1, h2, h3]
-      · by_cases h4 : 0 < (List.filter (fun x => x == a) c.cReg).length <;> simp [h1, h2, h3, h4]
-
-theorem int_branch_eq (s : Interp R) (sep : Sep) : int_branch s sep = { s with qOps := s.qOps.branch sep } := by
-  unfold int_branch ExtOp.branch
-  by_cases h : s.qOps.tail.isEmpty <;> simp [h]
-
-theorem int_branch_with_id_eq (s : Interp R) (sep : Sep) :
-    int_branch_with_id s sep = { s with qOps := s.qOps.branchWithId sep } := by
-  simp [int_branch_with_id, ExtOp.branchWithId]
-
-theorem int_xor_eq (s : Interp R) : int_xor s = s.xor := rfl
-
-theorem fold_idx_eq (l : List String) (a : String) :
-    int_get_idx_by_alias_fold_idx_by_alias l a = Interp.maskByAlias l a := by
-  unfold int_get_idx_by_alias_fold_idx_by_alias Interp.maskByAlias Rs.enumerate
-  rw [List.filter_map, List.foldl_map]
-  generalize l.zipIdx = z
-  have key : ∀ (z : List (String × Nat)) (acc : Nat),
-      List.foldl (fun (a2 : Nat) (a3 : String × Nat) => a2 ||| shlW 64 1 (a3.2 % 2 ^ 32)) acc
-        (List.filter ((fun a1 : Nat × String => a1.2 == a) ∘ fun p : String × Nat => (p.2, p.1)) z) =
-      List.foldl (fun acc (p : String × Nat) => if (p.1 == a) = true then acc ||| 1 <<< (p.2 % W) else acc) acc z := by
-    intro z
-    induction z with
-    | nil => intro acc; rfl
-    | cons x xs ih =>
-      intro acc
-      have hs : shlW 64 1 (x.2 % 2 ^ 32) = 1 <<< (x.2 % W) := by
-        unfold shlW W
-        have h1 : x.2 % 2 ^ 32 % 64 = x.2 % 64 := Nat.mod_mod_of_dvd _ (by decide)
-        rw [h1, Nat.one_mul, Nat.shiftLeft_eq, Nat.one_mul,
-          Nat.mod_eq_of_lt (Nat.pow_lt_pow_right (by decide) (Nat.mod_lt _ (by decide)))]
-      by_cases hx : (x.1 == a) = true
-      · simp only [List.filter_cons, Function.comp_apply, hx, ↓reduceIte, List.foldl_cons, hs, ih]
-      · simp only [List.filter_cons, Function.comp_apply, hx, Bool.false_eq_true, ↓reduceIte, List.foldl_cons, ih]
-  simpa using key z 0
-
-theorem int_get_q_idx_eq (s c : Interp R) (arg : Arg) :
-    int_get_q_idx_with_context s c arg = Interp.getIdx s c true arg := by
-  unfold int_get_q_idx_with_context Interp.getIdx int_get_idx_by_alias
-  cases arg with
-  | qubit nm idx =>
-    simp only [fold_idx_eq, bitsList_eq, ↓reduceIte]
-    by_cases h : Interp.maskByAlias (s.qReg ++ c.qReg) nm = 0
-    · simp [h]
-    · simp only [bne_iff_ne, ne_eq, h, not_false_eq_true, ↓reduceIte]
-      cases (bitsIterList (Interp.maskByAlias (s.qReg ++ c.qReg) nm))[idx]? <;> rfl
-  | register nm =>
-    simp only [fold_idx_eq, ↓reduceIte]
-    by_cases h : Interp.maskByAlias (s.qReg ++ c.qReg) nm = 0 <;> simp [h]
-
-theorem int_get_c_idx_eq (s c : Interp R) (arg : Arg) :
-    int_get_c_idx_with_context s c arg = Interp.getIdx s c false arg := by
-  unfold int_get_c_idx_with_context Interp.getIdx int_get_idx_by_alias
-  cases arg with
-  | qubit nm idx =>
-    simp only [fold_idx_eq, bitsList_eq, Bool.false_eq_true, ↓reduceIte]
-    by_cases h : Interp.maskByAlias (s.cReg ++ c.cReg) nm = 0
-    · simp [h]
-    · simp only [bne_iff_ne, ne_eq, h, not_false_eq_true, ↓reduceIte]
-      cases (bitsIterList (Interp.maskByAlias (s.cReg ++ c.cReg) nm))[idx]? <;> rfl
-  | register nm =>
-    simp only [fold_idx_eq, Bool.false_eq_true, ↓reduceIte]
-    by_cases h : Interp.maskByAlias (s.cReg ++ c.cReg) nm = 0 <;> simp [h]
-
-theorem int_append_int_eq [Add R] [Sub R] [Mul R] [Div R] [Neg R] [Zero R] [One R] [Consts R] (s i : Interp R) :
-    int_append_int s i = Interp.appendInt s i := by
-  have h := extop_append_eq s.qOps i.qOps
-  unfold int_append_int Interp.appendInt Rs.mapExtend
-  simp only []
-  rw [← h.1]
-
-theorem int_prepend_int_eq [Add R] [Sub R] [Mul R] [Div R] [Neg R] [Zero R] [One R] [Consts R] (s i : Interp R) :
-    int_prepend_int s i = Interp.prependInt s i := by
-  unfold int_prepend_int Interp.prependInt
-  exact int_append_int_eq i s
-
-section proc
-variable [Add R] [Sub R] [Mul R] [Neg R] [Div R] [ExprFns R] [AngleFns R]
-
-theorem int_process_qreg_eq (s c : Interp R) (a : String) (n : Nat) :
-    exToRes (int_process_qreg s c a n) = Interp.processNode s c (.qreg a n) := by
-  unfold int_process_qreg
-  simp only [Interp.processNode]
-  simp only [int_check_ident_eq, int_check_reg_size_eq, int_check_dup_eq]
-  cases Interp.checkIdent a with
-  | error e => rfl
-  | ok _ =>
-    cases Interp.checkRegSize a n with
-    | error e => rfl
-    | ok _ =>
-      cases Interp.checkRegSize a (s.qReg.length + c.qReg.length + n) with
-      | error e => rfl
-      | ok _ =>
-        cases Interp.checkDup s c a with
-        | error e => rfl
-        | ok _ => rfl
-
-theorem int_process_creg_eq (s c : Interp R) (a : String) (n : Nat) :
-    exToRes (int_process_creg s c a n) = Interp.processNode s c (.creg a n) := by
-  unfold int_process_creg
-  simp only [Interp.processNode]
-  simp only [int_check_ident_eq, int_check_reg_size_eq, int_check_dup_eq]
-  cases Interp.checkIdent a with
-  | error e => rfl
-  | ok _ =>
-    cases Interp.checkRegSize a n with
-    | error e => rfl
-    | ok _ =>
-      cases Interp.checkRegSize a (s.cReg.length + c.cReg.length + n) with
-      | error e => rfl
-      | ok _ =>
-        cases Interp.checkDup s c a with
-        | error e => rfl
-        | ok _ => rfl
-
-theorem int_process_barrier_eq (s c : Interp R) :
-    exToRes (int_process_barrier s c) = Interp.processNode s c .barrier := rfl
-
-theorem int_process_opaque_eq (s c : Interp R) :
-    exToRes (int_process_opaque s c) = Interp.processNode s c .opaque := rfl
-
-theorem int_process_reset_eq (s c : Interp R) (a : Arg) :
-    exToRes (int_process_reset s c a) = Interp.processNode s c (.reset a) := by
-  unfold int_process_reset
-  simp only [Interp.processNode]
-  rw [int_get_q_idx_eq]
-  cases Interp.getIdx s c true a with
-  | error e => rfl
-  | ok idx => simp [exToRes, Except.bind, int_branch_with_id_eq]
-
-theorem int_process_measure_eq (s c : Interp R) (q cl : Arg) :
-    exToRes (int_process_measure s c q cl) = Interp.processNode s c (.measure q cl) := by
-  unfold int_process_measure
-  simp only [Interp.processNode]
-  rw [int_get_q_idx_eq]
-  cases Interp.getIdx s c true q with
-  | error e => rfl
-  | ok qa =>
-    simp only [Except.bind, int_get_c_idx_eq]
-    cases Interp.getIdx s c false cl with
-    | error e => rfl
-    | ok ca =>
-      by_cases h : popcount qa = popcount ca
-      · simp [h, exToRes, Except.bind, int_branch_with_id_eq]
-      · simp [h, exToRes, Except.bind]
-
-/-! ### statement dispatch and the session entry points (`process_node`, `process_nodes`, `ast_changes`,
-`add_ast`, `Int::new`), with `Result` as `Except` (`Res.toE`) -/
-
-theorem toE_exToRes {α : Type} (x : Except IntError α) : (exToRes x).toE = x := by
-  cases x <;> rfl
-
-theorem eq_toE_of_exToRes {α : Type} {x : Except IntError α} {m : Res α} (h : exToRes x = m) : x = m.toE := by
-  rw [← h, toE_exToRes]
-
-/-- `{ CALL?; Ok(()) }` with the `&mut` parameter returned is `CALL` -/
-theorem bind_ok_self {α : Type} (x : Except IntError α) :
-    Except.bind x (fun r => Except.bind (Except.ok () : Except IntError Unit) (fun _ => Except.ok r)) = x := by
-  cases x <;> rfl
-
-/-! the two merges of the session's and the chunk's gate definitions agree as long as no name is defined twice,
-which `process_gate` guarantees (`MacrosDisjoint` is an invariant of `process_nodes`, see below) -/
-
-/-- no gate of the session is defined again by the chunk being interpreted -/
-def MacrosDisjoint (s c : Interp R) : Prop := ∀ p ∈ s.macros, c.macros.any (·.1 == p.1) = false
-
-theorem mapExtend_disjoint {s c : Interp R} (h : MacrosDisjoint s c) :
-    Rs.mapExtend s.macros c.macros = s.macros ++ c.macros := by
-  unfold Rs.mapExtend
-  congr 1
-  apply List.filter_eq_self.2
-  intro p hp
-  simp [h p hp]
-
-theorem mapGet_eq_lookupLast {α : Type} (m : List (String × α)) (k : String) : Rs.mapGet m k = lookupLast m k := rfl
-
-theorem mapInsert_fresh {α : Type} (m : List (String × α)) (k : String) (v : α) (h : Rs.mapContains m k = false) :
-    Rs.mapInsert m k v = m ++ [(k, v)] := by
-  unfold Rs.mapInsert
-  congr 1
-  apply List.filter_eq_self.2
-  intro p hp
-  unfold Rs.mapContains at h
-  rw [List.any_eq_false] at h
-  simpa using h p hp
-
-theorem regsOf_eq (s c : Interp R) (l : List Arg) (acc : List Nat) :
-    Interp.processApply.regsOf s c l acc =
-      (List.mapM (fun a => Interp.getIdx s c true a) l).map (fun r => acc.reverse ++ r) := by
-  induction l generalizing acc with
-  | nil => simp [Interp.processApply.regsOf, pure, Except.pure, Except.map]
-  | cons a as ih =>
-    rw [Interp.processApply.regsOf, List.mapM_cons]
-    cases h : Interp.getIdx s c true a with
-    | error e => simp [bind, Except.bind, Except.map]
-    | ok m =>
-      simp only [ih, bind, Except.bind]
-      cases List.mapM (fun a => Interp.getIdx s c true a) as with
-      | error e => simp [Except.map]
-      | ok r => simp [Except.map, pure, Except.pure]
-
-theorem argsOf_eq (l : List (PExpr R)) (acc : List R) :
-    Interp.processApply.argsOf l acc = (List.mapM Interp.evalArg l).map (fun r => acc.reverse ++ r) := by
-  induction l generalizing acc with
-  | nil => simp [Interp.processApply.argsOf, pure, Except.pure, Except.map]
-  | cons a as ih =>
-    rw [Interp.processApply.argsOf, List.mapM_cons]
-    cases h : evalExtended a [] with
-    | error e =>
-      have : Interp.evalArg a = .error (.unevaluatedArgument a.text e) := by simp [Interp.evalArg, h]
-      simp [this, bind, Except.bind, Except.map]
-    | ok v =>
-      have : Interp.evalArg a = .ok v := by simp [Interp.evalArg, h]
-      simp only [this, ih, bind, Except.bind]
-      cases List.mapM Interp.evalArg as with
-      | error e => simp [Except.map]
-      | ok r => simp [Except.map, pure, Except.pure]
-
-theorem int_process_apply_gate_eq [Zero R] [One R] [Consts R] (s c : Interp R) (hd : MacrosDisjoint s c)
-    (name : String) (regs : List Arg) (args : List (PExpr R)) :
-    int_process_apply_gate s c name regs args = (Interp.processApply s c ⟨name, regs, args⟩).toE := by
-  unfold int_process_apply_gate Interp.processApply
-  simp only [regsOf_eq, argsOf_eq, mapExtend_disjoint hd, mapGet_eq_lookupLast]
-  have hf : (fun a1 => int_get_q_idx_with_context s c a1) = fun a => Interp.getIdx s c true a := by
-    funext a; exact int_get_q_idx_eq s c a
-  simp only [hf]
-  cases List.mapM (fun a => Interp.getIdx s c true a) regs with
-  | error e => simp [Except.map, Except.bind, Res.toE]
-  | ok rs =>
-    simp only [Except.map, Except.bind, List.reverse_nil, List.nil_append]
-    cases List.mapM Interp.evalArg args with
-    | error e => simp [Res.toE]
-    | ok as =>
-      simp only []
-      cases hl : lookupLast (s.macros ++ c.macros) name with
-      | some m =>
-        simp only [Macro.processE]
-        cases Macro.process (s.macros ++ c.macros) ((s.macros ++ c.macros).length + 2) m name rs as [name] with
-        | ok o => simp [Res.toE, extop_push_eq]
-        | err e => simp [Res.toE]
-        | panic p => simp [Res.toE]
-      | none =>
-        simp only [Gates.processE]
-        cases Gates.process name rs as with
-        | ok o => simp [Res.toE, extop_push_eq]
-        | err e => simp [Res.toE]
-        | panic p => simp [Res.toE]
-
-theorem int_process_gate_eq (s c : Interp R) (name : String) (regs args : List String) (body : List (Inner R)) :
-    int_process_gate s c name regs args body = (Interp.processNode s c (.gate name regs args body)).toE := by
-  unfold int_process_gate
-  simp only [Interp.processNode]
-  cases Macro.new regs args body with
-  | error e => rfl
-  | ok m =>
-    simp only [Except.bind, Rs.mapContains]
-    by_cases h1 : s.macros.any (·.1 == name) = true
-    · simp [h1, Res.toE]
-    · by_cases h2 : c.macros.any (·.1 == name) = true
-      · simp [h1, h2, Res.toE]
-      · simp only [h1, h2, Bool.not_false, Bool.and_self, if_true, Bool.false_eq_true, int_check_ident_eq]
-        cases Interp.checkIdent name with
-        | error e => rfl
-        | ok _ =>
-          have h2' : Rs.mapContains c.macros name = false := by
-            unfold Rs.mapContains; exact Bool.eq_false_iff.2 h2
-          have := mapInsert_fresh c.macros name m h2'
-          simp [this, Res.toE]
-          done
-
-theorem int_process_node_apply_eq [Zero R] [One R] [Consts R] (s c : Interp R) (hd : MacrosDisjoint s c) (cl : Call R) :
-    int_process_node_apply s c (.apply cl) = (Interp.processApply s c cl).toE := by
-  unfold int_process_node_apply
-  exact int_process_apply_gate_eq s c hd cl.name cl.regs cl.args
-
-theorem int_process_if_eq [Zero R] [One R] [Consts R] (s c : Interp R) (hd : MacrosDisjoint s c)
-    (lhs : String) (rhs : Nat) (body : Inner R) :
-    int_process_if s c lhs rhs body = (Interp.processNode s c (.ifn lhs rhs body)).toE := by
-  unfold int_process_if
-  cases body with
-  | other => rfl
-  | call cl =>
-    simp only [Interp.processNode, int_branch_eq, int_get_c_idx_eq]
-    cases Interp.getIdx s { c with qOps := c.qOps.branch .nop } false (.register lhs) with
-    | error e => rfl
-    | ok val =>
-      simp only [Except.bind]
-      rw [int_process_node_apply_eq s _ (by exact hd)]
-      generalize Interp.processApply s _ cl = r
-      cases r with
-      | ok ch' =>
-        simp only [Res.toE]
-        by_cases ht : (!List.isEmpty ch'.qOps.tail) = true <;> simp [ht]
-      | err e => rfl
-      | panic p => rfl
-
-theorem int_process_node_eq [Zero R] [One R] [Consts R] (s c : Interp R) (hd : MacrosDisjoint s c) (node : Node R) :
-    int_process_node s c node = (Interp.processNode s c node).toE := by
-  unfold int_process_node
-  cases node with
-  | qreg a n => simp only [bind_ok_self]; exact eq_toE_of_exToRes (int_process_qreg_eq s c a n)
-  | creg a n => simp only [bind_ok_self]; exact eq_toE_of_exToRes (int_process_creg_eq s c a n)
-  | barrier => simp only [bind_ok_self]; exact eq_toE_of_exToRes (int_process_barrier_eq s c)
-  | reset a => simp only [bind_ok_self]; exact eq_toE_of_exToRes (int_process_reset_eq s c a)
-  | measure q cl => simp only [bind_ok_self]; exact eq_toE_of_exToRes (int_process_measure_eq s c q cl)
-  | apply cl => simp only [bind_ok_self]; exact int_process_apply_gate_eq s c hd cl.name cl.regs cl.args
-  | «opaque» => simp only [bind_ok_self]; exact eq_toE_of_exToRes (int_process_opaque_eq s c)
-  | gate name regs args body => simp only [bind_ok_self]; exact int_process_gate_eq s c name regs args body
-  | ifn lhs rhs body => simp only [bind_ok_self]; exact int_process_if_eq s c hd lhs rhs body
-
-theorem bind_ok_eta {α : Type} (x : Except IntError α) :
-    Except.bind x (fun r => (Except.ok r : Except IntError α)) = x := by
-  cases x <;> rfl
-
-theorem res_match_ok {α β : Type} (r : Res α) (f : α → β) (c' : β)
-    (h : (match r with | .ok o => Res.ok (f o) | .err e => .err e | .panic s => .panic s) = .ok c') :
-    ∃ o, f o = c' := by
-  cases r with
-  | ok o => exact ⟨o, by injection h⟩
-  | err e => cases h
-  | panic p => cases h
-
-theorem processApply_macros (s c c' : Interp R) (cl : Call R) (h : Interp.processApply s c cl = .ok c') :
-    c'.macros = c.macros := by
-  unfold Interp.processApply at h
-  split at h
-  · cases h
-  · split at h
-    · cases h
-    · rename_i _ rs _ _ as _
-      simp only [] at h
-      cases hl : lookupLast (s.macros ++ c.macros) cl.name with
-      | some m =>
-        simp only [hl] at h
-        cases hm : Macro.process (s.macros ++ c.macros) ((s.macros ++ c.macros).length + 2) m cl.name rs as [cl.name] with
-        | ok o => simp only [hm, Res.ok.injEq] at h; rw [← h]
-        | err e => simp only [hm] at h; cases h
-        | panic p => simp only [hm] at h; cases h
-      | none =>
-        simp only [hl] at h
-        cases hm : Gates.process cl.name rs as with
-        | ok o => simp only [hm, Res.ok.injEq] at h; rw [← h]
-        | err e => simp only [hm] at h; cases h
-        | panic p => simp only [hm] at h; cases h
-
-/-- `process_node` keeps the chunk's definitions apart from the session's -/
-theorem processNode_disjoint (s c c' : Interp R) (n : Node R) (hd : MacrosDisjoint s c)
-    (h : Interp.processNode s c n = .ok c') : MacrosDisjoint s c' := by
-  have same : c'.macros = c.macros → MacrosDisjoint s c' := fun e => by unfold MacrosDisjoint; rw [e]; exact hd
-  cases n with
-  | qreg a k => simp only [Interp.processNode] at h; split at h <;> simp at h; exact same (by rw [← h])
-  | creg a k => simp only [Interp.processNode] at h; split at h <;> simp at h; exact same (by rw [← h])
-  | barrier => simp only [Interp.processNode, Res.ok.injEq] at h; exact same (by rw [← h])
-  | «opaque» => simp only [Interp.processNode, Res.ok.injEq] at h; exact same (by rw [← h])
-  | reset a => simp only [Interp.processNode] at h; split at h <;> simp at h; exact same (by rw [← h])
-  | measure q cl =>
-    simp only [Interp.processNode] at h
-    split at h
-    · simp at h
-    · split at h
-      · simp at h
-      · split at h <;> simp at h
-        exact same (by rw [← h])
-  | apply cl => exact same (processApply_macros s c c' cl h)
-  | gate name regs args body =>
-    simp only [Interp.processNode] at h
-    split at h
-    · simp at h
-    · split at h
-      · rename_i hfresh
-        split at h
-        · simp only [Res.ok.injEq] at h
-          intro p hp
-          rw [← h]
-          simp only [List.any_append, List.any_cons, List.any_nil, Bool.or_false, Bool.or_eq_false_iff]
-          refine ⟨hd p hp, ?_⟩
-          have h1 : s.macros.any (fun q => q.1 == name) = false := by
-            cases hh : s.macros.any (fun q => q.1 == name) with
-            | false => rfl
-            | true => rw [hh] at hfresh; simp at hfresh
-          have h2 := (List.any_eq_false.1 h1) p hp
-          have h3 : ¬ (p.1 = name) := by simpa using h2
-          show (name == p.1) = false
-          exact beq_false_of_ne (fun e => h3 e.symm)
-        · simp at h
-      · simp at h
-  | ifn lhs rhs body =>
-    simp only [Interp.processNode] at h
-    split at h
-    · split at h
-      · simp at h
-      · split at h
-        · rename_i ch' hpa
-          simp only [Res.ok.injEq] at h
-          have := processApply_macros s _ ch' _ hpa
-          exact same (by rw [← h]; exact this)
-        · simp at h
-        · simp at h
-    · simp at h
-
-theorem foldlM_process [Zero R] [One R] [Consts R] (s : Interp R) (nodes : List (Node R)) (c : Interp R)
-    (hd : MacrosDisjoint s c) :
-    List.foldlM (fun ch n => int_process_node s ch n) c nodes = (Interp.processNodes s c nodes).toE := by
-  induction nodes generalizing c with
-  | nil => rfl
-  | cons n ns ih =>
-    rw [List.foldlM_cons, int_process_node_eq s c hd]
-    simp only [Interp.processNodes]
-    cases h : Interp.processNode s c n with
-    | ok ch => exact ih ch (processNode_disjoint s c ch n hd h)
-    | err e => rfl
-    | panic p => rfl
-
-theorem int_process_nodes_eq [Zero R] [One R] [Consts R] (s c : Interp R) (hd : MacrosDisjoint s c) (nodes : List (Node R)) :
-    int_process_nodes s c nodes = (Interp.processNodes s c nodes).toE := by
-  unfold int_process_nodes
-  simp only [bind_ok_self, bind_ok_eta]
-  exact foldlM_process s nodes c hd
-
-theorem int_ast_changes_eq [Zero R] [One R] [Consts R] (s c : Interp R) (hd : MacrosDisjoint s c) (ast : List (Node R)) :
-    int_ast_changes s c ast = (Interp.astChanges s c ast).toE := by
-  unfold int_ast_changes Interp.astChanges
-  simp only [int_process_nodes_eq s c hd]
-  cases Interp.processNodes s c ast <;> rfl
-
-theorem macrosDisjoint_empty (s : Interp R) : MacrosDisjoint s {} := by
-  intro p _; rfl
-
-/-- `add_ast`: the translated function is the model's, for every session and chunk (the chunk's delta starts empty) -/
-theorem int_add_ast_eq [Zero R] [One R] [Consts R] (s : Interp R) (ast : List (Node R)) :
-    int_add_ast s ast = (Interp.addAst s ast).toE := by
-  unfold int_add_ast Interp.addAst
-  simp only [int_ast_changes_eq s {} (macrosDisjoint_empty s)]
-  cases Interp.astChanges s {} ast with
-  | ok ch => simp [Res.toE, Except.bind, int_append_int_eq]
-  | err e => rfl
-  | panic p => rfl
-
-theorem int_new_eq [Zero R] [One R] [Consts R] (ast : List (Node R)) :
-    int_new ast = (Interp.new ast : Res (Interp R)).toE := by
-  unfold int_new Interp.new
-  simp only [int_add_ast_eq]
-  cases Interp.addAst ({} : Interp R) ast <;> rfl
-
-end proc
-
-end Qvnt.Gen2
+import Qvnt.Lemmas.GenInt.exToRes
+import Qvnt.Lemmas.GenInt.int_check_ident_eq
+import Qvnt.Lemmas.GenInt.int_check_reg_size_eq
+import Qvnt.Lemmas.GenInt.int_check_dup_eq
+import Qvnt.Lemmas.GenInt.int_branch_eq
+import Qvnt.Lemmas.GenInt.int_branch_with_id_eq
+import Qvnt.Lemmas.GenInt.int_xor_eq
+import Qvnt.Lemmas.GenInt.fold_idx_eq
+import Qvnt.Lemmas.GenInt.int_get_q_idx_eq
+import Qvnt.Lemmas.GenInt.int_get_c_idx_eq
+import Qvnt.Lemmas.GenInt.int_append_int_eq
+import Qvnt.Lemmas.GenInt.int_prepend_int_eq
+import Qvnt.Lemmas.GenInt.int_process_qreg_eq
+import Qvnt.Lemmas.GenInt.int_process_creg_eq
+import Qvnt.Lemmas.GenInt.int_process_barrier_eq
+import Qvnt.Lemmas.GenInt.int_process_opaque_eq
+import Qvnt.Lemmas.GenInt.int_process_reset_eq
+import Qvnt.Lemmas.GenInt.int_process_measure_eq
+import Qvnt.Lemmas.GenInt.toE_exToRes
+import Qvnt.Lemmas.GenInt.eq_toE_of_exToRes
+import Qvnt.Lemmas.GenInt.bind_ok_self
+import Qvnt.Lemmas.GenInt.MacrosDisjoint
+import Qvnt.Lemmas.GenInt.mapExtend_disjoint
+import Qvnt.Lemmas.GenInt.mapGet_eq_lookupLast
+import Qvnt.Lemmas.GenInt.mapInsert_fresh
+import Qvnt.Lemmas.GenInt.regsOf_eq
+import Qvnt.Lemmas.GenInt.argsOf_eq
+import Qvnt.Lemmas.GenInt.int_process_apply_gate_eq
+import Qvnt.Lemmas.GenInt.int_process_gate_eq
+import Qvnt.Lemmas.GenInt.int_process_node_apply_eq
+import Qvnt.Lemmas.GenInt.int_process_if_eq
+import Qvnt.Lemmas.GenInt.int_process_node_eq
+import Qvnt.Lemmas.GenInt.bind_ok_eta
+import Qvnt.Lemmas.GenInt.res_match_ok
+import Qvnt.Lemmas.GenInt.processApply_macros
+import Qvnt.Lemmas.GenInt.processNode_disjoint
+import Qvnt.Lemmas.GenInt.foldlM_process
+import Qvnt.Lemmas.GenInt.int_process_nodes_eq
+import Qvnt.Lemmas.GenInt.int_ast_changes_eq
+import Qvnt.Lemmas.GenInt.macrosDisjoint_empty
+import Qvnt.Lemmas.GenInt.int_add_ast_eq
+import Qvnt.Lemmas.GenInt.int_new_eq
